@@ -4,6 +4,7 @@ mod sync;
 mod folder;
 mod epatch;
 mod auth;
+mod integrity;
 use hcommon::parse_cli;
 
 fn main() {
@@ -13,6 +14,7 @@ fn main() {
         "folder" => folder::run(&cli),
         "epatch" => epatch::run(&cli),
         "auth" => auth::run(&cli),
+        "integrity" => integrity::run(&cli),
         "sched" => sync::run_sched(&cli),
         d => {
             eprintln!("unknown domain {d}");
